@@ -686,7 +686,9 @@ func HashMapOfValueCopyTable(vm *Thread, target *HashMapOfValue, source []value.
 func HashMapOfValueCopy(vm *Thread, target *HashMapOfValue, source *HashMapOfValue) value.Value {
 	requiredCapacity := target.Length() + source.Length()
 	if target.Capacity() < requiredCapacity {
-		HashMapOfValueSetCapacity(vm, target, requiredCapacity)
+		if err := HashMapOfValueSetCapacity(vm, target, requiredCapacity); !err.IsUndefined() {
+			return err
+		}
 	}
 
 	target.version++
@@ -718,7 +720,9 @@ func HashMapOfValueCopy(vm *Thread, target *HashMapOfValue, source *HashMapOfVal
 func HashMapOfValueCopyInterface(vm *Thread, target *HashMapOfValue, source HashRecord) value.Value {
 	requiredCapacity := target.Length() + source.Length()
 	if target.Capacity() < requiredCapacity {
-		HashMapOfValueSetCapacity(vm, target, requiredCapacity)
+		if err := HashMapOfValueSetCapacity(vm, target, requiredCapacity); !err.IsUndefined() {
+			return err
+		}
 	}
 
 	target.version++
@@ -786,9 +790,13 @@ func HashMapOfValueSetCapacity(vm *Thread, hashMap *HashMapOfValue, capacity int
 
 func HashMapOfValueSetWithMaxLoad(vm *Thread, hashMap *HashMapOfValue, key, val value.Value, maxLoad float64) value.Value {
 	if hashMap.Capacity() == 0 {
-		HashMapOfValueSetCapacity(vm, hashMap, 5)
+		if err := HashMapOfValueSetCapacity(vm, hashMap, 5); !err.IsUndefined() {
+			return err
+		}
 	} else if float64(hashMap.OccupiedSlots) >= float64(hashMap.Capacity())*maxLoad {
-		HashMapOfValueSetCapacity(vm, hashMap, hashMap.OccupiedSlots*2)
+		if err := HashMapOfValueSetCapacity(vm, hashMap, hashMap.OccupiedSlots*2); !err.IsUndefined() {
+			return err
+		}
 	}
 
 	index, err := HashMapOfValueIndex(vm, hashMap, key)
